@@ -601,7 +601,7 @@ func (tdsChan *Channel) WritePacket(packet *Packet) {
 	// The packet is header-only - pass it directly into the package
 	// channel.
 	if packet.Header.Length == PacketHeaderSize {
-		tdsChan.packageCh <- HeaderOnlyPackage{Header: packet.Header}
+		tdsChan.packageCh <- &HeaderOnlyPackage{Header: packet.Header}
 		return
 	}
 
